@@ -35,8 +35,33 @@ let c18_rw args impl =
         | 't' -> ETick (e.[1] <> '0')
         | 's' -> EShutdown (e.[1] <> '0')
         | _ -> ERaceShutdown (e.[1] <> '0', pick, e.[2] <> '0')) evs in
-    let render pick = String.concat " " (List.map show_act (rw_run ros durs (mk pick))) ^ " cancelled=1" in
-    let cands = if has_race then [render false; render true] else [render false] in
+    let show acts = String.concat " " (List.map show_act acts) ^ " cancelled=1" in
+    let render pick = show (rw_run ros durs (mk pick)) in
+    (* a tick offered right after Shutdown has returned: Shutdown does not wait for the loop, so
+       the loop's select may still see both the closed channel and the timer, and take the timer
+       (the same select race; the harness marks the outcome spec=bad:refresh-after-shutdown).
+       The admitted alternative: the actions up to Shutdown's return, then that tick's actions as
+       if the loop were alive (Shutdown consumes no schedule answer). *)
+    let conv e = match e.[0] with
+      | 't' -> ETick (e.[1] <> '0') | 's' -> EShutdown (e.[1] <> '0') | _ -> ERaceShutdown (e.[1] <> '0', false, e.[2] <> '0') in
+    let late =
+      if has_race then [] else
+      let rec split pre = function
+        | [] -> None
+        | e :: rest when e.[0] = 's' ->
+          (match List.filter (fun x -> x.[0] = 't') rest with
+           | lt :: _ -> Some (List.rev pre, e, lt)
+           | [] -> None)
+        | e :: rest -> split (e :: pre) rest in
+      match split [] evs with
+      | None -> []
+      | Some (pre, sev, lt) ->
+        let upto = rw_run ros durs (List.map conv (pre @ [sev])) in
+        let b_pre = rw_run ros durs (List.map conv pre) in
+        let b_full = rw_run ros durs (List.map conv (pre @ [lt])) in
+        let rec drop n l = if n = 0 then l else match l with [] -> [] | _ :: t -> drop (n - 1) t in
+        [show (upto @ drop (List.length b_pre) b_full)] in
+    let cands = (if has_race then [render false; render true] else [render false]) @ late in
     if List.mem impl cands then "OK" else "model admits: " ^ String.concat " | " cands
   | _ -> failwith "rw: bad args"
 
